@@ -5,6 +5,7 @@ package main
 import (
 	"fmt"
 	"go/ast"
+	"go/constant"
 	"go/token"
 	"go/types"
 	"sort"
@@ -358,6 +359,26 @@ func (u *Unit) libraryCall(c *ast.CallExpr, fun ast.Expr, env *Env) ([]Outcome, 
 		return ret(env, Value{App(fnm, SStr, v.Term), types.Typ[types.String]}), true
 	// ------------------------------------------------------------------ fmt / errors / strings
 	case "fmt.Sprintf", "fmt.Sprint", "fmt.Errorf":
+		if fn.Name() == "Sprintf" && len(c.Args) > 0 {
+			// a constant format made of text and %s verbs over string arguments is the concatenation it denotes
+			if tv, ok := u.Info.Types[c.Args[0]]; ok && tv.Value != nil && tv.Value.Kind() == constant.String {
+				allStr := true
+				var as []Term
+				for i := 1; i < len(c.Args); i++ {
+					if b, ok := types.Unalias(u.Info.TypeOf(c.Args[i])).Underlying().(*types.Basic); !ok || b.Kind() != types.String {
+						allStr = false
+					}
+				}
+				if allStr {
+					for i := 1; i < len(c.Args); i++ {
+						as = append(as, argv(i).Term)
+					}
+					if t, ok := u.sprintfChain(constant.StringVal(tv.Value), as); ok {
+						return ret(env, Value{t, types.Typ[types.String]}), true
+					}
+				}
+			}
+		}
 		var ts []Term
 		var ss []Sort
 		for i := range c.Args {
@@ -705,11 +726,14 @@ func (u *Unit) parseFloat(env *Env, s Term, bits int) (Term, Term) {
 
 func (u *Unit) opaqueLibraryCall(c *ast.CallExpr, fun ast.Expr, fn *types.Func, name string, env *Env) []Outcome {
 	sig := fn.Type().(*types.Signature)
-	for _, a := range c.Args {
+	for i, a := range c.Args {
 		if tv, ok := u.Info.Types[a]; ok && tv.IsType() {
 			continue
 		}
-		u.eval(a, env)
+		av := u.eval(a, env)
+		// specifications may name the arguments of the latest call of an opaque library function: <Func>_arg<i>
+		env.alias[fmt.Sprintf("%s_arg%d", fn.Name(), i)] = av.Term
+		env.aliasTy[fmt.Sprintf("%s_arg%d", fn.Name(), i)] = av.Ty
 	}
 	if se, ok := fun.(*ast.SelectorExpr); ok {
 		if sel := u.Info.Selections[se]; sel != nil {
@@ -868,6 +892,37 @@ func (u *Unit) havocLitAssigned(env *Env, only map[string]bool) {
 			return true
 		})
 	}
+}
+
+// "text%stext%s..." over string arguments as a left-nested concatenation (the shape of a + b + c); false for any other verb
+func (u *Unit) sprintfChain(format string, args []Term) (Term, bool) {
+	pieces := strings.Split(format, "%s")
+	if len(pieces) != len(args)+1 {
+		return Term{}, false
+	}
+	for _, p := range pieces {
+		if strings.Contains(p, "%") {
+			return Term{}, false
+		}
+	}
+	var seq []Term
+	for i, p := range pieces {
+		if p != "" {
+			seq = append(seq, u.strLit(p))
+		}
+		if i < len(args) {
+			seq = append(seq, args[i])
+		}
+	}
+	if len(seq) == 0 {
+		return u.strLit(""), true
+	}
+	u.D.Fun("str_concat", SStr, SStr, SStr)
+	acc := seq[0]
+	for _, t := range seq[1:] {
+		acc = App("str_concat", SStr, acc, t)
+	}
+	return acc, true
 }
 
 func (u *Unit) lockOp(env *Env, lockExpr ast.Expr, mode string, acquire bool, at ast.Node) {
